@@ -1,4 +1,100 @@
-// slice `add_path`: Schedule::add_path_to_vehicle_tour (solution/src/schedule/modifications.rs), verbatim body -- DRAFT HEADER
+// slice `add_path`: Schedule::add_path_to_vehicle_tour and Schedule::can_depot_spawn_vehicle (solution/src/schedule/
+// modifications.rs, schedule.rs), verbatim bodies; the bookkeeping callees are stubs with the contract text of the slices
+// that verify them.  Contract of add_path_to_vehicle_tour(&self, v, path) (vocabulary in env/add_path_shim.vs; t0 = the
+// vehicle's old tour, p = the path's nodes, (s, e) = THE positions Tour::insert_path cuts t0 at -- ins_positions is
+// functional: lemma_ins_unique --, displaced = t0[s .. e), vt = the vehicle's type):
+//   C01 / C10  "a vehicle only serves service trips of the vehicle's type": Err if some node of p is not compatible with vt;
+//        on Ok every node of the new tour is compatible if every node of t0 was (discharges the A-type assumption of C01
+//        for this modification).
+//   C02  "depot limits hold": Err if p starts with a depot node other than t0's start depot whose depot has no room for
+//        one more vehicle of vt (ap_depot_has_room = the verified result of can_depot_spawn_vehicle: type listed, fewer
+//        vehicles of the type / in total start there than the capacities);  "formation limits hold": Err if the formation
+//        of some non-depot node of p is not strictly below its limit (ap_room); on Ok the grown formations are within
+//        their limits (ap_within_limits).
+//   C13  "documented effect and nothing else": on Ok((r, removed)): r.tours == self.tours + {v -> new tour}, new tour's nodes
+//        == t0[0 .. s) + p + t0[e ..) (prefix + WHOLE path + suffix), a well-formed real tour of the network with exact
+//        caches; `removed` is exactly the dropped block: None iff displaced holds no activity, else Some(displaced); every
+//        other tour, all vehicles, dummy tours, both listings, the id counter, the network are untouched
+//        (ap_tours_after, ap_rest_untouched).  These are the only refusals: type guard passes && start depot admitted &&
+//        ap_room ==> Ok (refused_only_as_documented; uses C10 "the vehicle is listed in the formations of its tour").
+//   C10 / C03 formations: every non-depot node of p gets the vehicle at the tail (ap_joins: update_train_formation(None,
+//        Some(vehicle), p)); every non-depot node of displaced listed the vehicle and loses its first occurrence, order
+//        kept (ap_leaves: update_train_formation(Some(v), None, displaced), which runs on the table the first call
+//        leaves -- path and displaced block share no activity: displaced is a block of t0 and no activity of p is a node
+//        of t0, precondition ap_path_fresh --); every other node keeps its formation, same key set (ap_elsewhere).
+//   C09  costs == old + new tour's costs - old tour's costs; depot usage exact for v, unchanged for all others, hence exact
+//        (usage_exact) for r; unserved passengers: old - Σ_p unserved(old formation) + Σ_p unserved(formation + vehicle)
+//        - Σ_displaced unserved(old formation) + Σ_displaced unserved(formation - vehicle), all read off the OLD table;
+//        rotation cycles / maintenance violation: the postcondition of update_transitions_and_violation_fast
+//        (transitions_follow: consistent with the new tours, membership, violation sum, other types untouched).
+//
+// ASSUMPTIONS introduced / used by this slice:
+//   A-display NEW (env/add_path_shim.vs): `{}` of a Path has no precondition (the repository's impl prints the nodes and
+//            unwraps the first one: a Path is never empty; no-op impl outside verus!); `{}` of VehicleTypeIdx
+//            (env/spawn_vehicle_shim.vs), of VehicleIdx (env/model_spec.vs)
+//   A-iter   Path::iter yields the path's nodes in order (stub returning SeqIter; text as in slices/sched_guard.vs);
+//            SeqIter::any (env/seqiter.vs)
+//   R7a stubs (verified elsewhere with the SAME contract text, hashes checked): Tour::insert_path (tour_mod),
+//            Schedule::can_depot_spawn_vehicle_custom_usage (admission), Schedule::update_train_formation
+//            (train_formation_update; R12: `moved_nodes` retyped to SeqIter<NodeIdx>), Schedule::update_depot_usage
+//            (depot_usage), Schedule::update_transitions_and_violation_fast (sched_guard); env/time_ops.vs,
+//            env/model_fns.vs (Network::node, Node::is_depot, …), env/dist_ops.vs included trusted (slices time / network /
+//            tour_ctor).  No stub without a verified contract (A-stub) is used.
+//   A-im     env/im_shim.vs (im::HashMap get / insert / clone), env/schedule_shim.vs (opaque im::HashSet + clone)
+//   A-derive derived Clone of Vehicle (external_body in env/spawn_vehicle_shim.vs, used through vstd's specification of
+//            Option::<&T>::cloned) and of TransitionCycle are structural; vstd: Arc::clone, Option::unwrap,
+//            Result::{unwrap, expect}, vec!
+//   included but NOT used by the code under contract (they come with env/spawn_vehicle_shim.vs, env/sched_guard_shim.vs,
+//            env/im_shim.vs): <[T]>::binary_search, Result::unwrap_or_else, std::mem::replace, Index / IndexMut of
+//            im::HashMap, Ord of VehicleIdx, Debug of Vec<NodeIdx>, im::HashMap::keys, SeqIter::{contains, filter},
+//            Option::copied, Vec::{extend, retain}
+//   plus env/broadcast_model.vs (key model of the index types).  env/add_path_shim.vs copies (files that cannot be
+//   included next to env/spawn_vehicle_shim.vs / env/sched_guard_shim.vs, or slices): `ins_pos` + `lemma_ins_unique`
+//   (env/override_reassign_shim.vs), `lemma_first_pos` and the depot-admission vocabulary `Depot::sp_capacity_for`,
+//   `Network::{has_depot, sp_depot, sp_depot_idx_of}`, `spawned_of_type`, `spawned_counts`, `spawned_total`
+//   (slices/admission.vs), `lemma_isum_remove` (env/depot_usage_shim.vs).  env/remove_lemmas.vs + env/insert_lemmas.vs (the
+//   vocabulary of insert_path's contract) are included in a module of their own (`cut`): in the root module the
+//   unrelated lemma_remove_dhd exceeded the resource limit.
+//
+// PRECONDITIONS the caller must guarantee (Schedule::{ap_ok, ap_vehicle_ok, ap_path_ok, …}, env/add_path_shim.vs):
+//   * derived from the code: `vehicle_idx` is a REAL vehicle.  The doc comment says "(dummy or real)", but
+//     `self.vehicles.get(&vehicle_idx).cloned().unwrap()` and `tours.get(&vehicle_idx).unwrap()` panic for a dummy (and
+//     for an unknown id already `tour_of(..).unwrap()` / `expect("Vehicle must be real, as it starts with a depot")` if the
+//     path starts with a depot).  Both callers (swaps/spawn_vehicle_for_maintenance.rs, swaps/add_trip_for_hitch_hiking.rs)
+//     take the vehicle from `schedule.vehicles_iter_all()` (real vehicles only); tests / benches pass real vehicles: the
+//     function is never called with a dummy;
+//   * ap_ok: instance validity (Network::wf); C10 ids (sv_ids_ok); C10 / C09 for the formation table (sv_formations_ok:
+//     every activity has a formation, magnitudes, trips' types are types of the network); C09 for the unserved passengers
+//     in the forms the u32 arithmetic needs: the pair covers the contribution of any list of nodes without a repeated
+//     activity (ap_unserved_covers), and -- with the instance magnitude "total demand fits u32" -- taking a listed vehicle
+//     out of any duplicate-free set of formations keeps it within u32 (ap_unserved_room); C15 / C10 / C09 for the rotation
+//     cycles (transitions_ok); C09 usage_exact; costs <= 2^61;
+//   * ap_vehicle_ok: the vehicle's type is a listed type of the network and the vehicle carries the network's record of
+//     it (C10); its tour is a well-formed real tour of the network with exact caches (C01 / C10 / C09), A-len; its costs are
+//     part of the schedule's costs (C09); it is listed in the formation of every activity of its tour (C10, ap_listed);
+//   * ap_path_ok: path.network is the schedule's network; A-path (nodes of the network, connected, not only depots),
+//     A-len; ap_path_fresh: no ACTIVITY of the path is a node of the vehicle's tour (a depot may be: schedule/tests.rs
+//     add_path_to_vehicle_tour_with_same_start_depot_test) -- see "NOT covered / finding";
+//   * A-counter: ap_counter_ok (the uninterpreted maintenance counter of the new tour is within +-2^40);
+//   * ap_admission_pre: if the path starts with a depot node: A-depots (the node's depot is in the network's table) and
+//     the u32 magnitudes of the `as VehicleCount` casts in the admission check.
+//
+// NOT covered:
+//   * on Err nothing is claimed about the message; that the result satisfies ap_ok again (invariant preservation)
+//     beyond what the postconditions state; that the callers establish the preconditions;
+//   * FINDING (candidate defect, low severity; both effects confirmed with unit tests on solution::test_utilities, the
+//     refusal with vehicleTypes[0].maximalFormationCount = 2): a path that
+//     contains an activity the vehicle ALREADY serves (ap_path_fresh violated; e.g. default_schedule,
+//     add_path_to_vehicle_tour(veh1, [trip31]) with tour(veh1) = [sd2, trip31, trip14, ed1]; the benchmark
+//     solution/benches/schedule_modification_benchmarks.rs adds [trip12, trip23, trip31] to veh0, which serves trip12 and
+//     trip23; Neighborhood::hitch_hiking_iterator enumerates every service trip of the vehicle's type including its
+//     own): the node is first ADDED (second entry of the vehicle in the formation; refused with Err when the formation is
+//     at its limit although the vehicle count would not change), then falls into the block insert_path drops and is
+//     REMOVED (first entry): result Ok, tour unchanged, but the vehicle moves to the tail of the formation
+//     ([veh1, veh2] -> [veh2, veh1]) and the node is reported in the returned conflict path although the vehicle still
+//     serves it ("displaced … service trips are handed back", C13: it was not displaced).  Harmless today:
+//     AddTripForHitchHiking turns any conflict into Err, SpawnVehicleForMaintenance (which re-spawns a vehicle for the
+//     conflict path) only adds a maintenance slot to a tour without one.
 #![feature(allocator_api)]
 use vstd::prelude::*;
 use std::ops::Add;
@@ -27,8 +123,13 @@ verus! {
 //@include env/vsum_impls.vs
 //@include env/cache_spec.vs
 //@include env/cache_lemmas.vs
+pub mod cut {
+use super::*;
+use vstd::prelude::*;
 //@include env/remove_lemmas.vs
 //@include env/insert_lemmas.vs
+} // mod cut
+pub use self::cut::*;
 
 pub mod tr {
 use super::*;
@@ -182,11 +283,41 @@ impl Clone for TransitionCycle {
 //@end
 
 // ---- Schedule: trusted stubs ----------------------------------------------------------------------------
-// A-stub (verified in no slice): the result is uninterpreted -- it only selects the Err branch
-//@item solution/src/schedule.rs Schedule::can_depot_spawn_vehicle : trusted
+// verified in slice admission; contract text copied from there
+//@item solution/src/schedule.rs Schedule::can_depot_spawn_vehicle_custom_usage : trusted
 //@retname r
 //@sig
-    ensures r == spec_can_depot_spawn(self, start_depot, vehicle_type),
+    requires
+        self.network.has(start_depot), self.network.sp_node(start_depot).sp_is_depot(),
+        self.network.has_depot(self.network.sp_depot_idx_of(start_depot)),
+        spawned_of_type(depot_usage@, self.network.sp_depot_idx_of(start_depot), vehicle_type) <= u32::MAX,
+        spawned_total(depot_usage@, self.network.sp_depot_idx_of(start_depot), self.network.vehicle_types.ids_sorted@) <= u32::MAX,
+    ensures
+        r == ({
+            let d = self.network.sp_depot_idx_of(start_depot);
+            &&& self.network.sp_depot(d).sp_capacity_for(vehicle_type) > 0
+            &&& spawned_of_type(depot_usage@, d, vehicle_type) < self.network.sp_depot(d).sp_capacity_for(vehicle_type)
+            &&& spawned_total(depot_usage@, d, self.network.vehicle_types.ids_sorted@) < self.network.sp_depot(d).total_capacity
+        }), // @obl C02.can_depot_spawn.iff_room_for_type_and_in_total
+        // in the words of the property: after one more vehicle of this type starts there, the depot is
+        // still within its total capacity and within the per-type capacity, and the type is listed
+        r ==> ({
+            let d = self.network.sp_depot_idx_of(start_depot);
+            let dep = self.network.sp_depot(d);
+            &&& dep.allowed_types@.contains_key(vehicle_type)
+            &&& (dep.allowed_types@[vehicle_type] is Some ==> spawned_of_type(depot_usage@, d, vehicle_type) + 1 <= dep.allowed_types@[vehicle_type].unwrap())
+            &&& spawned_total(depot_usage@, d, self.network.vehicle_types.ids_sorted@) + 1 <= dep.total_capacity
+        }), // @obl C02.can_depot_spawn.within_capacities_after_spawn
+//@end
+// verified here (verbatim body): the admission check on the schedule's own usage table
+//@item solution/src/schedule.rs Schedule::can_depot_spawn_vehicle
+//@retname r
+//@sig
+    requires
+        self.network.has(start_depot), self.network.sp_node(start_depot).sp_is_depot(),
+        self.ap_admission_pre(start_depot, vehicle_type),
+    ensures
+        r == self.ap_depot_has_room(start_depot, vehicle_type), // @obl C02.can_depot_spawn_vehicle.iff_room_for_type_and_in_total
 //@end
 // verified in slice train_formation_update; contract text copied from there
 //@item solution/src/schedule/modifications.rs Schedule::update_train_formation : trusted
@@ -270,6 +401,8 @@ impl Clone for TransitionCycle {
         self.ap_path_ok(vehicle_idx, &path),
         // A-counter (magnitude)
         self.ap_counter_ok(vehicle_idx, path.node_sequence@),
+        // A-depots / magnitudes for the admission check, if the path brings a start depot
+        self.ap_admission_pre(path.node_sequence@[0], self.type_of(vehicle_idx)),
     ensures
         // C01 / C10 "a vehicle only serves service trips of the vehicle's type": "If some node on the path is not
         // compatible with the vehicle type (if real vehicle) an error is returned", and a tour all of whose nodes were
@@ -280,7 +413,14 @@ impl Clone for TransitionCycle {
         // C02 "depot limits hold": a path that brings a start depot other than the old one is refused when that depot
         // cannot spawn a vehicle of the type
         self.network.sp_node(path.node_sequence@[0]).sp_is_depot() && path.node_sequence@[0] != self.tours@[vehicle_idx].nodes@[0]
-            && !spec_can_depot_spawn(self, path.node_sequence@[0], self.type_of(vehicle_idx)) ==> r is Err, // @obl C02.add_path.refuses_full_start_depot
+            && !self.ap_depot_has_room(path.node_sequence@[0], self.type_of(vehicle_idx)) ==> r is Err, // @obl C02.add_path.refuses_full_start_depot
+        // C02 "formation … limits hold": "If a train formation of some node on the path is full, an error is returned."
+        !self.ap_room(vehicle_idx, path.node_sequence@) ==> r is Err, // @obl C02.add_path.refuses_full_formation
+        // C13: … and these are the only refusals
+        all_compatible(&self.network, path.node_sequence@, self.type_of(vehicle_idx))
+            && !(self.network.sp_node(path.node_sequence@[0]).sp_is_depot() && path.node_sequence@[0] != self.tours@[vehicle_idx].nodes@[0]
+                && !self.ap_depot_has_room(path.node_sequence@[0], self.type_of(vehicle_idx)))
+            && self.ap_room(vehicle_idx, path.node_sequence@) ==> r is Ok, // @obl C13.add_path.refused_only_as_documented
         // C13 "documented effect and nothing else"
         r is Ok ==> self.ap_tours_after(vehicle_idx, path.node_sequence@, &r->Ok_0.0, r->Ok_0.1), // @obl C13.add_path.receiver_gains_path_displaced_block_returned_everything_else_untouched
         r is Ok ==> self.ap_rest_untouched(&r->Ok_0.0), // @obl C13.add_path.receiver_gains_path_displaced_block_returned_everything_else_untouched
@@ -297,7 +437,7 @@ impl Clone for TransitionCycle {
         r is Ok ==> self.ap_unserved_after(vehicle_idx, path.node_sequence@, r->Ok_0.0.unserved_passengers), // @obl C09.add_path.unserved_passengers_delta_exact
         // C15 / C10 / C09: rotation cycles and maintenance violation
         r is Ok ==> self.transitions_follow(self.type_of(vehicle_idx), &r->Ok_0.0), // @obl C10.add_path.transitions_follow
-//@closure any#0
+//@closure? any#0
     -> (b: bool) requires self.network.has(n) ensures b == !self.network.sp_compatible(n, vehicle_type_id) /* @obl C01.add_path.only_compatible_nodes */
 //@first
         let ghost p = path.node_sequence@;
@@ -310,9 +450,9 @@ impl Clone for TransitionCycle {
 //@before "if self.network.node(path.first())"
         proof {
             // `any` returned false: every node of the path is compatible with the vehicle's type
-            assert(all_compatible(&self.network, p, vt)) by {
-                assert forall|i: int| 0 <= i < p.len() implies self.network.sp_compatible(#[trigger] p[i], vt) by {}
-            } // @obl C01.add_path.only_compatible_nodes
+            assert(all_compatible(&self.network, p, vt)) by { // @obl C01.add_path.only_compatible_nodes
+                assert forall|i: int| 0 <= i < p.len() implies self.network.sp_compatible(#[trigger] p[i], vt) by {} // @obl C01.add_path.only_compatible_nodes
+            }
         }
 //@before "let (new_tour"
         let ghost tf1 = train_formations@;
